@@ -21,7 +21,7 @@ from menpo.landmark import LandmarkManager
 from menpo.model import PCAModel, PCAVectorModel
 from menpo.model.linear import LinearVectorModel, MeanLinearVectorModel
 from menpo.shape import PointCloud
-from menpo.transform import TransformChain, WithDims
+from menpo.transform import Homogeneous, TransformChain, WithDims
 from menpo.transform.base.alignment import Alignment
 from menpo.transform.rbf import R2LogR2RBF, R2LogRRBF
 
@@ -504,12 +504,26 @@ class Ownership(Machine):
                                                                    "LabelledPointUndirectedGraph")
         if drop:
             # a dimension-changing transform: the owner and every landmark group become 2D
+            projective = bool(op["seed"] & 4)
             if owner.groups is not None and not owner.groups:
+                if projective and op["seed"] & 8:
+                    v0 = PointCloud(np.zeros((0, 3)))       # a group that holds no point (yet) is a 3D group all the same
+                    owner.obj.landmarks["empty"] = v0
+                    owner.groups["empty"] = dg(v0)
+                    self.ctx.probe("group_without_points_taken_to_another_dimensionality")
                 v3 = PointCloud(rs(op["seed"] ^ 0x77).rand(4, 3))
                 owner.obj.landmarks["pre"] = v3          # make sure there is a 3D group to take along
                 owner.groups["pre"] = dg(v3)
                 owner.digest = dg(owner.obj)
-            t = WithDims([0, 1])
+            if projective:
+                # a 3 x 4 matrix: scaled orthographic projection onto the first two axes plus a shift
+                P = np.zeros((3, 4))
+                P[0, 0] = P[1, 1] = 1.0 + (op["seed"] % 5) * 0.25
+                P[:2, 3] = [0.5, -1.5]
+                P[2, 3] = 1.0
+                t = Homogeneous(P)
+            else:
+                t = WithDims([0, 1])
             self.ctx.probe("owner_taken_to_another_dimensionality")
         else:
             t = gen.homog_transform(["Affine", "Similarity", "Translation", "Rotation"][op["how"] % 4], op["seed"], owner.d)
@@ -525,8 +539,8 @@ class Ownership(Machine):
             m, m0 = r.landmarks, owner.obj.landmarks
             ctx.require(list(m.group_labels) == list(owner.groups), "manager", "transform_changed_group_names")
             for nm in m.group_labels:
-                exp = t.apply(np.asarray(m0[nm].points))
-                ok = np.allclose(m[nm].points, exp, rtol=1e-10, atol=1e-10, equal_nan=True)
+                exp = np.asarray(t.apply(np.asarray(m0[nm].points)))
+                ok = np.shape(m[nm].points) == exp.shape and np.allclose(m[nm].points, exp, rtol=1e-10, atol=1e-10, equal_nan=True)
                 ctx.require(ok, "owned_copy", "transformed_owner_landmarks_not_transformed_" + owner.kind)
                 cell.groups[nm] = dg(m[nm])
             cell.had_dim = getattr(owner, "had_dim", None)
@@ -575,7 +589,7 @@ class Ownership(Machine):
                 return
             nm = list(tgt.groups)[op["name"] % len(tgt.groups)]
             grp = self._mgr(tgt)[nm]
-            if not grp.points.flags.writeable:
+            if not grp.points.flags.writeable or grp.points.shape[0] == 0:
                 return ()
             grp.points[0] -= 1.5
             tgt.groups[nm] = dg(grp)
